@@ -160,6 +160,14 @@ def qdepth(ts):
 
 
 # ---------------------------------------------------------------------------------------------- table checks
+def canon(p):
+    """the physical path a logical spelling (through the links R/lnw -> R/w, R/w/la -> R/w/a) denotes"""
+    for link, target in (("%R%/lnw", "%R%/w"), ("%R%/w/la", "%R%/w/a")):
+        if p == link or p.startswith(link + "/"):
+            p = target + p[len(link):]
+    return p
+
+
 def check_tables(cases):
     """Everything in the exported bindings that is an abstraction table (string functions, path arithmetic,
     exportedness) is recomputed here independently of mockery; disagreement = the machinery is wrong (exit 2)."""
@@ -192,20 +200,23 @@ def check_tables(cases):
             raise MachineryError("Layout: documented ConfigDir is not the directory of the real config file")
         idr = c["data"]["InterfaceDirRelative"]
         under = (ifdir + "/").startswith(cfgdir + "/")
-        if (idr != "%UNSPEC%") != under or under and idr != posixpath.relpath(ifdir, cfgdir):
+        open_case = m["via"] == "symroot" and cfgdir == "%R%"      # the link lies between the two: either name is fine
+        if (idr != "%UNSPEC%") != (under and not open_case) or idr != "%UNSPEC%" and idr != posixpath.relpath(ifdir, cfgdir):
             raise MachineryError(f"Layout: RelStr({cfgdir},{ifdir}) = {idr!r} disagrees with posixpath")
         # code-shaped bindings (config.go after 77bca2b: everything from the absolute path of the file in use)
-        if c["impl"]["ConfigDir"] != cfgdir:
-            raise MachineryError(f"Layout: code-shaped ConfigDir {c['impl']['ConfigDir']!r} is not the directory of the file in use")
-        want = posixpath.relpath(ifdir, cfgdir) if under else "."
+        if canon(c["impl"]["ConfigDir"]) != cfgdir or c["impl"]["ConfigDir"] != m["cfgdirlog"] or canon(m["cwdlog"]) != cwd or \
+                canon(m["ifdirimpl"]) != ifdir or c["impl"]["InterfaceDir"] != m["ifdirimpl"]:
+            raise MachineryError("Layout: a logical spelling does not denote the directory it stands for")
+        under_spelled = (m["ifdirimpl"] + "/").startswith(m["cfgdirlog"] + "/")
+        want = posixpath.relpath(m["ifdirimpl"], m["cfgdirlog"]) if under_spelled else "."
         if c["impl"]["InterfaceDirRelative"] != want:
             raise MachineryError("Layout: code-shaped InterfaceDirRelative disagrees with posixpath")
         if m["mode"] in ("flag_rel", "env_rel", "flagenv_rel"):
-            want = posixpath.relpath(cfgdir + "/" + m["cfgname"], cwd)
+            want = posixpath.relpath(m["cfgdirlog"] + "/" + m["cfgname"], m["cwdlog"])
             if m["param"] != want:
                 raise MachineryError(f"Layout: relative config parameter {m['param']!r} != {want!r}")
         elif m["mode"] in ("flag_abs", "env_abs", "flagenv_abs"):
-            if m["param"] != cfgdir + "/" + m["cfgname"]:
+            if m["param"] != m["cfgdirlog"] + "/" + m["cfgname"]:
                 raise MachineryError("Layout: absolute config parameter is wrong")
         elif m["param"] != "":
             raise MachineryError("Layout: search mode with a config parameter")
@@ -303,6 +314,8 @@ class World:
                      "packages": {p: {"interfaces": {i: {} for i in v["interfaces"]}} for p, v in conf["packages"].items()}}
             files[os.path.relpath(self.sub(m["decoy"]) + "/" + m["decoyname"], R)] = json.dumps(decoy, ensure_ascii=False)
         vlib.write_files(R, files)
+        os.symlink("w", os.path.join(R, "lnw"))              # Layout!Vias: symroot
+        os.symlink("a", os.path.join(R, "w", "la"))          #              symsub
         self.before = set(vlib.tree_hash(R))
         self.args, self.env = [], {}
         if m["mode"].startswith("flag"):
@@ -311,7 +324,8 @@ class World:
                 self.env = {"MOCKERY_CONFIG": self.sub(m["envparam"])}
         elif m["mode"].startswith("env"):
             self.env = {"MOCKERY_CONFIG": self.sub(m["param"])}
-        self.cwd = self.sub(m["cwd"])
+        self.cwd = self.sub(m["cwdlog"])
+        self.env = dict(self.env, PWD=self.cwd)              # os.Getwd() reports the logical path only with $PWD
 
     def new_files(self):
         return sorted(p for p, h in vlib.tree_hash(self.root).items() if h != "DIR" and p not in self.before)
@@ -394,8 +408,11 @@ def proj(w, vals):
     s = w.sub(vals["schema"])
     if s.startswith("file://"):
         s = "file://" + os.path.normpath(os.path.join(w.cwd, s[len("file://"):]))
-    return {"dir": d.replace(w.root, "%R%"), "filename": vals["filename"], "pkgname": vals["pkgname"],
-            "structname": vals["structname"], "schema": s.replace(w.root, "%R%")}
+    s = s.replace(w.root, "%R%")
+    if s.startswith("file://"):
+        s = "file://" + canon(s[len("file://"):])
+    return {"dir": canon(d.replace(w.root, "%R%")), "filename": vals["filename"], "pkgname": vals["pkgname"],
+            "structname": vals["structname"], "schema": s}
 
 
 def layout_class(m):
@@ -433,7 +450,7 @@ class Judge:
     def sig(self, c, kind, **kw):
         m = c["meta"]
         s = {"kind": kind, "sid": m["sid"][:2] if m["sid"][0] in "BTLD" else "res", "mode": m["mode"],
-             "layout_class": layout_class(m), "predicted_deviation": d14_of(c), "template": "testify" if m["tmpl"] == "testify" else "custom", "spelling": c.get("style", "compact")}
+             "layout_class": layout_class(m), "via": m["via"], "predicted_deviation": d14_of(c), "template": "testify" if m["tmpl"] == "testify" else "custom", "spelling": c.get("style", "compact")}
         s.update(kw)
         return s
 
@@ -645,6 +662,10 @@ def _run(ctx):
         raise MachineryError("vacuous: no value with invalid template syntax that appears only after a pass")
     if not any(c["meta"]["iface"] == "設定" for c in cases) or not any(c["meta"]["iface"] == "_Shouty" for c in cases):
         raise MachineryError("vacuous: no interface whose first letter is caseless / an underscore before a capital")
+    for via in ("symroot", "symsub"):
+        if not any(c["meta"]["via"] == via and c["meta"]["mode"].startswith("search") and "InterfaceDirRelative" in c["uses"]
+                   and not c["meta"]["cwd_is_cfgdir"] for c in cases):
+            raise MachineryError(f"vacuous: no search layout with the working directory reached through a symlink ({via})")
     if not any(c["meta"]["decoy"] for c in cases):
         raise MachineryError("vacuous: no layout with a decoy config file")
     if not any(not c["meta"]["exported"] and "Mock" in c["uses"] for c in cases):
